@@ -4,11 +4,12 @@ CONSTANTS
   Shifts = {"0", "a", "b", "c"}
   Drivers = {"model", "model_range", "loader_stack", "loader_multi", "loader_range", "group_list", "group_map"}
   Models = {"ZNCC", "NCC", "PCC"}
+  IncludeBig = TRUE
 SPECIFICATION Spec
 INVARIANT TypeOK
 INVARIANT CandidateOrder
 INVARIANT Correct
-INVARIANT Bijection
+INVARIANT DecodeBijective
 INVARIANT V0416WrongExactlyWhen
 INVARIANT Emit
 CHECK_DEADLOCK FALSE
